@@ -39,6 +39,7 @@ def run(ck):
     ck.rule('R17.6', 'method table: sort key == search key')
     ck.rule('R17.7', 'stored indices are the push positions in the vector the reader indexes')
     ck.rule('R17.8', 'common base: ancestor-or-self of self from which other derives')
+    ck.rule('R17.9', 'an unresolvable (dangling) super class does not hide what the other super classes provide')
 
     # ---- R17.1 ---------------------------------------------------------------------
     nx = next((f for f in L.fn_list if f['path'].startswith('<typemap::class::BaseClasses') and f['name'] == 'next'), None)
@@ -332,3 +333,48 @@ def run(ck):
                 clone_cls = any(c.get('m') == 'clone' and (H.root_local(c['recv']) or {}).get('hid') in pb for c in H.calls_in(cl['body']))
                 ok = recv_other and arg_cls and clone_cls
         ck.ob('R17.8', 'common-base-shape', ok, L.loc(cb['body']), 'self.walk(|cls| other.is_derived_from_pedantic(cls).map(.. cls.clone()))')
+
+    # ---- R17.9 error items must not end the search (combinator algebra, evaluated) ----------------------------------
+    import aeval
+    n9 = 0
+    for path in ('typemap::class::Class::is_derived_from_pedantic', 'typemap::class::Class::find_map_self_and_base_classes'):
+        fn = L.fn(path)
+        if fn is None:
+            ck.ob('R17.9', 'error-item-does-not-end-the-search|%s' % short(path), False, '', 'fn not found')
+            continue
+        fm = next((c for c in H.calls_in(fn['body']) if c.get('m') == 'find_map' and any(x.get('m') == 'base_classes' for x in H.calls_in(c['recv']))), None)
+        if fm is None or fm['args'][0].get('k') != 'Closure':
+            ck.ob('R17.9', 'error-item-does-not-end-the-search|%s' % short(path), False, L.loc(fn['body']), 'base_classes().find_map(<closure>) not found')
+            continue
+        n9 += 1
+        I = aeval.Interp(L, lenient=True)
+        clo = ('#closure', fm['args'][0], {})
+        try:
+            r_err = I.apply(clo, [('Err', ('#dangling',))], 0)
+        except aeval.Undecided as e:
+            r_err = ('undecided', str(e))
+        ok = r_err == ('None',)
+        ck.ob('R17.9', 'error-item-does-not-end-the-search|%s' % short(path), ok, L.loc(fm),
+              'the closure yields None for an Err item: the walk goes on to the remaining super classes' if ok else
+              'the closure handed to find_map yields %r for an Err item (a super class name that does not resolve): find_map stops there, so whether a base/property/method '
+              'is found depends on whether the dangling super class is listed before or after the one that provides it' % (r_err,), fn=fn['path'])
+        # and the useful cases: a matching super class ends the walk with the hit, a non-matching one lets it go on
+        bsf = H.binding_sites(fn)
+        env = {}
+        for h, b in bsf.items():
+            if b['kind'] == 'param' and b['index'] == 1:
+                if 'Fn' not in fn['inputs'][1] and 'Class' in fn['inputs'][1]:
+                    env[h] = ('Class', 'B')                                   # `base`
+                else:
+                    env[h] = lambda a: ('Some', ('Ok', ('hit', a[0]))) if a[0] == ('Class', 'B') else ('None',)   # `f`
+        clo = ('#closure', fm['args'][0], env)
+        cases = []
+        for item, want in ((('Ok', ('Class', 'B')), 'Some'), (('Ok', ('Class', 'C')), 'None')):
+            try:
+                r = I.apply(clo, [item], 0)
+            except aeval.Undecided as e:
+                r = ('undecided', str(e))
+            cases.append((item, r, isinstance(r, tuple) and r[0] == want and (want == 'None' or (isinstance(r[1], tuple) and r[1][0] == 'Ok'))))
+        ck.ob('R17.9', 'matching-item-ends-search-others-continue|%s' % short(path), all(c[2] for c in cases), L.loc(fm),
+              '; '.join('%r -> %r' % (c[0], c[1]) for c in cases), fn=fn['path'])
+    ck.floor('R17.9', n9, 2, 'find_map walks over base_classes()')
